@@ -76,17 +76,27 @@ pub open spec fn closure_call(r: LiftExpr, x: Seq<char>, e: ScopeEntry, s: Strin
     && ca@.subrange(1, ca@.len() as int) == args
 }
 #[verifier::external_body] pub fn ty_unbox_clone(b: &Box<Ty>) -> (r: Ty) ensures r == **b { unimplemented!() }     // *ret_ty.clone()
-// fe / la: the lifted callee and the lifted arguments.  If the callee is a variable that holds a closure with an apply function the
-// call goes to that function (closure_call); otherwise callee and arguments are kept as they are
+// fe / la: the lifted callee and the lifted arguments.  C08: "called from any position a function type allows": whenever the callee holds a
+// closure environment with an apply function — known from the variable's scope entry or from the callee's lifted type — the call goes to
+// that function with the closure first; only a callee that is no closure is kept as it is
 pub open spec fn call_ok(r: LiftExpr, fe: LiftExpr, la: Seq<LiftExpr>, scope: &Scope, state: &State, ty: Ty) -> bool {
     if fe is EVar && scope.entry_of(fe->EVar_name@) is Some && entry_closure(state, scope.entry_of(fe->EVar_name@)->0) is Some
         && state.apply_of(entry_closure(state, scope.entry_of(fe->EVar_name@)->0)->0@) is Some {
         let e = scope.entry_of(fe->EVar_name@)->0;
         let s = entry_closure(state, e)->0;
         closure_call(r, fe->EVar_name@, e, s, state.apply_of(s@)->0, la, ty)
+    } else if state.closure_of(lift_ty(fe)) is Some && state.apply_of(state.closure_of(lift_ty(fe))->0@) is Some {
+        // the callee is no such variable, but its VALUE is a closure environment (a call result, a projection, ..): same treatment
+        value_closure_call(r, fe, state.apply_of(state.closure_of(lift_ty(fe))->0@)->0, la, ty)
     } else {
         r matches LiftExpr::ECall { func, args, ty: _ } && *func == fe && args@ == la
     }
+}
+pub open spec fn value_closure_call(r: LiftExpr, fe: LiftExpr, f: Seq<char>, args: Seq<LiftExpr>, ty: Ty) -> bool {
+    r matches LiftExpr::ECall { func, args: ca, ty: rt } && rt == ty
+    && (*func matches LiftExpr::EVar { name: fnm, .. } && fnm@ == f)
+    && ca@.len() == args.len() + 1 && ca@[0] == fe
+    && ca@.subrange(1, ca@.len() as int) == args
 }
 // the transformation of a let's BODY: a gate whose precondition says what the body must see — the let-bound variable in the innermost
 // layer, with the lifted VALUE's type and the closure environment that type names (so calls through it go to the apply function)
